@@ -49,12 +49,18 @@ def build(variant, targets):
                    "-DCMAKE_BUILD_TYPE=None", "-DREPO=" + REPO, "-DVF_VARIANT=" + variant,
                    "-DCMAKE_CXX_COMPILER=" + VARIANT_COMPILER[variant],
                    "-DCMAKE_PREFIX_PATH=/root/miniconda"]
+            pre = os.environ.get("VERIF_PREBUILT")  # development only (scratch clones)
+            if pre:
+                cmd.append("-DVF_PREBUILT_LIB=" + os.path.join(pre, variant, "libbabylon.a"))
             r = subprocess.run(cmd, stdout=subprocess.PIPE, stderr=subprocess.STDOUT, text=True)
             if r.returncode != 0:
                 log("cmake configure failed for", variant)
                 sys.stderr.write(r.stdout[-4000:])
                 return False
-        r = subprocess.run(["ninja", "-C", bdir] + list(targets), stdout=subprocess.PIPE,
+        if os.environ.get("VERIF_PREBUILT"):
+            targets = [t for t in targets if t != "babylon"]
+        jobs = ["-j" + os.environ["VERIF_NINJA_JOBS"]] if os.environ.get("VERIF_NINJA_JOBS") else []
+        r = subprocess.run(["ninja", "-C", bdir] + jobs + list(targets), stdout=subprocess.PIPE,
                            stderr=subprocess.STDOUT, text=True)
         if r.returncode != 0:
             log("build failed for", variant, targets)
